@@ -621,6 +621,7 @@ def work_parse(shard):
     tier, lo, hi = shard
     part = Partial()
     vals = num.make_values()
+    soft_vals, _soft_console = num.make_values_soft()
     from mc.core import from_pcbasic
     for text in gen_parse_texts(tier, lo, hi):
         tb = text.encode('ascii')
@@ -638,6 +639,23 @@ def work_parse(shard):
                                'reading %r: %r' % (tb, ex), case)
                 continue
             check_read(part, tb, got, flavour, case)
+            if got == ('err', error.OVERFLOW):
+                # without ON ERROR GOTO a float overflow is a message and the largest number of the text's sign
+                try:
+                    g2 = _call_from_repr(soft_vals, tb, allow)
+                except Exception as ex:
+                    if not from_pcbasic(ex):
+                        raise
+                    part.violation('parse/%s/host-exception/%s/soft-overflow' % (flavour, type(ex).__name__), 'reading %r: %r' % (tb, ex), case)
+                    continue
+                part.n += 1
+                if g2[0] == 'ok' and isinstance(g2[1], N.Float):
+                    want = type(g2[1]).neg_max if D.parse_numeral(tb).neg else type(g2[1]).pos_max
+                    if bytes(g2[1].to_bytes()) != bytes(want):
+                        part.violation('parse/%s/soft-overflow-wrong-value/%s' % (flavour, _shape(D.parse_numeral(tb))),
+                                       'reading %r with soft error handling gives %s, expected the largest number of that sign %s' % (
+                                           tb, bytes(g2[1].to_bytes()).hex(), bytes(want).hex()), case)
+                    part.classes.add('r:soft-overflow:%s' % type(g2[1]).__name__)
     part.traces = part.n
     part.sample({'tier': tier, 'digit_strings': [lo, hi], 'first': digit_strings(tier)[lo]})
     return part
